@@ -471,10 +471,10 @@ func (u *Universe) TLA() []byte {
 }
 
 // ConstCfg is the CONSTANTS part of a cfg file.
-func ConstCfg(methods, spellings []string, maxSpell int) string {
+func ConstCfg(methods, spellings []string, maxSpell int, hdrCross bool) string {
 	return "CONSTANTS\n  Templates <- cTemplates\n  DocOps <- cDocOps\n  EmbOps <- cEmbOps\n  EmbOrder <- cEmbOrder\n" +
 		"  ParamVal <- cParamVal\n  ParamBk <- cParamBk\n  IntParams <- cIntParams\n  Tok <- cTok\n  Variant <- cVariant\n  EffectOf <- cEffectOf\n" +
-		fmt.Sprintf("  Methods = %s\n  Spellings = %s\n  MaxSpell = %d\n  ValidatorOn = %s\n", qset(methods), qset(spellings), maxSpell, validatorOn())
+		fmt.Sprintf("  Methods = %s\n  Spellings = %s\n  MaxSpell = %d\n  ValidatorOn = %s\n  HdrCross = %s\n", qset(methods), qset(spellings), maxSpell, validatorOn(), tlaBool(hdrCross))
 }
 
 // validatorOn: VERIF_C18_NOVALIDATOR=1 selects the named alternative of the spec without the
